@@ -44,6 +44,10 @@ extern long vh_overlap_copies;                     /* memcpy/strcpy/strncpy call
 extern volatile long vh_locks, vh_unlocks;  /* successful trylock/lock and unlock calls */
 extern volatile int vh_force_busy;          /* >0: that many trylock calls fail with EBUSY */
 extern volatile long vh_usleeps;
+/* scheduling hooks for the deterministic scheduler (harness/conc.c); NULL = off */
+extern void (*vh_hook_before_lock)(void);   /* before every trylock/lock attempt */
+extern void (*vh_hook_locked)(void);        /* after a successful acquisition */
+extern void (*vh_hook_unlocked)(void);      /* after a successful release */
 
 /* ---- watchdog / crash reporting --------------------------------------------------- */
 void vh_watchdog(int seconds);              /* alarm(); on expiry a "timeout" event is written and the process exits 3 */
